@@ -1,6 +1,6 @@
-// C13 harness: the repository's fastrandombytes.cpp (textually included, so that its static state can be reset between
-// histories) + the Salsa20 assembly, with nfl::randombytes replaced by a fixed-key stub that counts its calls.
-// Line: "<keyseed> <len> <len> ..."  -> per request: hex (<= 96 bytes) or FNV hash, canary flag; then "| seedings=<k>".
+// C13 harness: the repository's fastrandombytes.cpp + the Salsa20 assembly, linked with a fixed-key nfl::randombytes stub
+// that counts its calls.  ONE history per process (the generator state is static): stdin holds a single line
+// "<keyseed> <len> <len> ..."  -> per request: hex (<= 96 bytes) or FNV hash, canary flag; then "| seedings=<k>".
 #include <cstdio>
 #include <cstdlib>
 #include <cstring>
@@ -10,14 +10,14 @@
 #include <sstream>
 static int seed_calls; static unsigned keyseed;
 namespace nfl { void randombytes(unsigned char* x, unsigned long long xlen) { seed_calls++; for (unsigned long long i = 0; i < xlen; i++) x[i] = (unsigned char)(keyseed + 7 * i + 1); } }
-#include "fastrandombytes.cpp"
+namespace nfl { void fastrandombytes(unsigned char* r, unsigned long long rlen); }
 
 int main() {
   std::string line; std::ostringstream os;
-  while (std::getline(std::cin, line)) {
+  if (std::getline(std::cin, line)) {
     std::istringstream is(line); unsigned long len; std::string mode;
     is >> keyseed;
-    nfl::init = 0; memset(nfl::nonce, 0, 8); memset(nfl::key, 0, 32); seed_calls = 0;
+    seed_calls = 0;
     size_t req = 0;
     while (is >> len) {
       size_t off = 64 + (req * 13) % 64;           // every alignment 0..63 over the history
